@@ -230,7 +230,8 @@ type c15srvOpts struct {
 	MaxStreams uint32
 	Sched      string // "" (default RFC 9218), "rr", "7540", "rand"
 	ReadBuf    int    // >0: bound the harness' receive buffer (the server's writes block when it is full)
-	NoPanicHook bool  // let a serve-goroutine panic kill the process (C16)
+	NoPanicHook bool  // let a serve-goroutine panic kill the process
+	Handler    func(w http.ResponseWriter, r *http.Request) // C16: replaces the command-driven handler body
 }
 
 type c15Handler struct {
@@ -360,6 +361,10 @@ func (s *c15srv) ServeHTTP(w http.ResponseWriter, r *http.Request) {
 		h.returned = true
 		s.mu.Unlock()
 	}()
+	if s.o.Handler != nil {
+		s.o.Handler(w, r)
+		return
+	}
 	if strings.HasPrefix(key, "x") {
 		// re-used stream id: answer at once
 		w.WriteHeader(204)
